@@ -386,12 +386,15 @@ impl<'a> Run<'a> {
         let q = self.sh.rf / 2 + 1;
         let t0 = Instant::now();
         loop {
+            // the confirmed prefix of the disk (counts as read_log gives them: read directly, not through a scan's cache)
             let mut pref = 0u64;
-            let mut it = self.sh.dbx.read_partition(self.c.pid, 0, IterDirection::Forward).await.map_err(|e| format!("read: {e}"))?;
-            'scan: while let Some(batch) = it.next_batch(64).await.map_err(|e| format!("read: {e}"))? {
-                for c in batch {
-                    let last = c.last_partition_sequence().ok_or("empty commit")?;
-                    if c.into_iter().all(|e| e.confirmation_count >= q) { pref = last + 1; } else { break 'scan; }
+            let (log, _) = read_log(&self.sh.dbx, self.c.pid, &self.c.ids).await?;
+            if log != "-" {
+                for ent in log.split(',') {
+                    let f: Vec<&str> = ent.split(':').collect();
+                    let (first, k) = (f[0].parse::<u64>().unwrap_or(0), f[2].parse::<u64>().unwrap_or(1));
+                    let counts = f[3].split('~').next().unwrap_or("0");
+                    if counts.split('.').all(|c| c.parse::<u8>().map(|c| c >= q).unwrap_or(false)) { pref = first + k; } else { break; }
                 }
             }
             let shown = match self.sh.cluster.ask(ReadPartition { partition_id: self.c.pid, start_sequence: 0, end_sequence: None, count: 100_000 }).await {
